@@ -242,6 +242,11 @@ def d3(chk, prog):
             if out is None:
                 continue
             fem = guessed if is_xx is None else is_xx
+            inverted = [h for h in W.hazards if h.startswith("~ applied to the boolean `is_xx`")]
+            if is_xx is not None and inverted:
+                # the caller stated the sex as a Python bool (True / False): `~is_xx` is then -2 / -1, always truthy
+                tb.cell(False, dict(is_xx=is_xx, haploid_x_reference=hap, problem=inverted[0], consequence="a stated female on a female reference takes the male branch: chrX is raised by a whole copy"))
+                continue
             dx = -1 if (fem and hap) else (1 if (not fem and not hap) else 0)
             for i, c in enumerate(CLS5):
                 want = t_add(T(before[i]), Term.const(dx if c in ("x", "parx") else 0))
@@ -417,6 +422,8 @@ def run(chk):
     # the estimators center_all binds: a location estimate of constant data / of a single value is that value (a chromosome covered by one bin votes its own level), C19-D5 rule
     from .. import estyping
     estyping.check_constant(chk, prog, {k: v for k, v in C19.LOCATION.items() if k in ("biweight_location", "modal_location")}, {}, floor=2)
+    # ... and move with the data: adding c to every value adds c to the estimate (otherwise the table is not centred on its own estimate afterwards), C19-D4 typing
+    estyping.check_typing(chk, prog, {k: v for k, v in C19.LOCATION.items() if k in ("biweight_location", "modal_location")}, {}, floor=2)
     d3(chk, prog)
     d3c_stated_sex(chk, prog)
     C05.d2(chk, prog)            # expect_flat_log2 table (shared with C05-D2)
